@@ -7,5 +7,5 @@
 //@pinfile file=cfgrammar/src/lib/yacc/parser.rs sha=6ef477d7cbbde140
 //@pinfile file=cfgrammar/src/lib/yacc/ast.rs sha=b152c25de197a916
 //@pinfile file=lrlex/src/lib/parser.rs sha=de9518e2e28f9549
-//@pinfile file=lrlex/src/lib/lexer.rs sha=9161971e9ed4b91a
+//@pinfile file=lrlex/src/lib/lexer.rs sha=448f544bab49b763
 //@use prelude/tail.rs
